@@ -14,6 +14,15 @@ Cases
          terminator placed across the 64 KiB read boundary; compared by lengths (sizes of the chunks
          file.read delivers, length of every line unframe emits per chunk, number of objects) with the
          length-level model evaluated in Coq, and by equality of the objects in Python.
+  raw    (a field of any of the above, case['raw'] = {seed, hi, full}): dump_to_file / load_from_file get a
+         custom open_obj whose reader is an io.RawIOBase stream that legitimately returns SHORT reads: the
+         k-th read(n) delivers min(n, cap_k, bytes left) bytes, cap_k drawn from random.Random(seed) - uniform
+         in 1..hi, or unbounded with probability `full`; never 0 bytes before the end of the data.  The caps of
+         the successive calls are recorded by the stream; on big cases they go to the Coq model (raw_sizes),
+         on small cases the text chunks that result go to Framing.Line in full.
+  redundant  (a flavour of big): 1.5 - 3 MiB (thorough: up to 8 MiB) of telemetry-like records that hardly
+         change from one to the next, so that gzip / zstd shrink the file by a factor > 30 and ONE <= 64 KiB
+         piece of the compressed file inflates to more than 1 MiB; compression None / gzip / zstd.
 Oracle (model-free): the objects read back == the objects written (type-exact, floats bit-exact), in order,
 one item per object, stream completes.  (Whether the file content is the concatenation of orjson lines after
 reference decompression is recorded in the evidence distribution, not judged.)"""
@@ -35,18 +44,33 @@ RULE = ('small: 0-6 objects (nested dicts/lists, 64-bit ints, floats incl. -0.0/
         'utf-8 (mostly)/utf-16/utf-32 x skip x path | custom open_obj; hand: hand-written files with blank lines, null '
         'lines, invalid lines, CRLF, missing final newline, ignore_error; big: file sizes 0..5x64 KiB (thorough up to '
         '1.5 MB) with a 2/3/4-byte character, an escape sequence, a quote or the line terminator placed at every '
-        'offset across a 64 KiB boundary (uncompressed utf-8), otherwise random content. non-trivial = a round-trip case '
+        'offset across a 64 KiB boundary (uncompressed utf-8), otherwise random content; raw: about a quarter of the '
+        'small/big cases (15% of hand) plus a dedicated family (every compression x cap range 1..hi, hi in 1..100000) use '
+        'a custom open_obj whose reader is an io.RawIOBase stream returning SHORT reads - the k-th read(n) delivers '
+        'min(n, cap_k, bytes left) >= 1 bytes, cap_k from random.Random(case.raw.seed), b"" only at the end of the '
+        'data - so that file.read delivers chunks of 1 byte .. 64 KiB cutting characters, escapes, compressed frames '
+        'anywhere; redundant: 1.5-3 MiB (thorough up to 8 MiB) of telemetry-like records that compress by a factor '
+        '> 30, compression None/gzip/zstd, so that one <= 64 KiB piece of the compressed file inflates past 1 MiB '
+        '(also through a raw stream). non-trivial = a round-trip case '
         'with >= 2 objects whose text contains a non-ASCII character or an escaped newline, or a big case whose '
-        'file spans >= 2 read chunks; distinct = distinct case JSON')
+        'file spans >= 2 read chunks or where one read chunk gave > 1 MiB of text; distinct = distinct case JSON')
 TRUSTED = ['NOT modelled: orjson (premises loads(dumps o) = o, dumps o non-empty without raw newline), CPython incremental '
            'text codecs (premise: decode of any re-chunking of encode = same text; C17), zlib/zstandard (premise: '
            'decompress of any re-chunking of compress = same bytes; C16). They are hypotheses of the composition theorem, '
            'tied to the libraries by this differential test only',
            'reference decoders used by the oracle: gzip module, zstandard, orjson itself',
            'monkey-patched taps on rxsci.framing.line.unframe and rxsci.io.file.read in the harness process',
-           'modelled not verified: file objects (append / sequential read), RxPY synchronous delivery, ops.skip/map/filter']
+           'modelled not verified: file objects (append / sequential read; a raw stream delivers min(size, cap, bytes '
+           'left) per read call, the caps being recorded by the harness stream itself), RxPY synchronous delivery, '
+           'ops.skip/map/filter',
+           'the raw stream of the harness (ShortReader, an io.RawIOBase subclass over the bytes of the file) stands for '
+           'pipes / sockets / remote stores; only the READ side returns short counts - the writer given to '
+           'dump_to_file is the builtin buffered file']
 ASSUMPTIONS = ['objects are JSON-representable dicts (str keys, ints in the 64-bit range, finite floats, valid Unicode)',
-               'lines=True, newline="\\n"', 'zstd.py as repaired (no effect on this property: file.read delivers no '
+               'lines=True, newline="\\n"',
+               'a file object returned by open_obj delivers b"" only at the end of the data (a non-blocking stream '
+               'returning None or b"" early is outside the property) and its write() accepts the whole chunk',
+               'zstd.py as repaired (no effect on this property: file.read delivers no '
                'empty chunk)']
 SHARD = 60
 COQ_TARGETS = ['theories/Container/C19Corr.vo']
@@ -112,6 +136,10 @@ def big_objs(spec):
                                                for _ in range(rng.randrange(60)))}
         elif flavour == 'long':
             o = {'id': len(objs), 'blob': rng.choice(['z', 'é', '\U0001f600']) * rng.choice([10, 5000, 70000])}
+        elif flavour == 'redundant':         # telemetry-like: compresses by a factor > 30
+            o = {'unit': 'thermo-é-中-\U0001f321', 'status': rng.choice(['nominal', 'nominal', 'nominal', 'degraded']),
+                 'note': 'all "good"\nno alarm', 'readings': [0.0, -0.0, 21.5, 21.5, None, True, {'cal': [1, 2, 3]}],
+                 'limits': {'lo': -40.0, 'hi': 125.0, 'i64': 2 ** 63 - 1}, 'seq': len(objs)}
         else:
             o = gen_obj(rng, 3)
             o['id'] = len(objs)
@@ -121,11 +149,26 @@ def big_objs(spec):
 
 
 # ---------------------------------------------------------------------------------------------
+MIB = 1 << 20
+NOCAP = 1 << 30          # a read call that is not capped: the stream fills the request
+RAW_HI_SMALL = [1, 2, 3, 7, 32, 200, 5000]
+RAW_HI_BIG = [700, 4096, 20000, 50000, READ - 1, READ, 100000]
+
+
+def gen_raw(rng, his, p):
+    """with probability p: the spec of a raw stream that returns short reads (every choice from rng)"""
+    spec = {'seed': rng.randrange(10 ** 6), 'hi': rng.choice(his), 'full': rng.choice([0.0, 0.0, 0.3])}
+    return spec if rng.random() < p else None
+
+
 def gen_small(rng):
     n = rng.choice([0, 1, 2, 2, 3, 4, 6])
-    return {'kind': 'small', 'objs': [gen_obj(rng, rng.choice([0, 1, 2])) for _ in range(n)],
-            'comp': rng.choice([None, None, 'gzip', 'zstd']), 'enc': rng.choice(['utf-8'] * 6 + ['utf-16', 'utf-32']),
-            'skip': rng.choice([0, 0, 0, 0, 1, 2, 7]), 'open_obj': rng.random() < 0.25, 'ignore': rng.random() < 0.2}
+    c = {'kind': 'small', 'objs': [gen_obj(rng, rng.choice([0, 1, 2])) for _ in range(n)],
+         'comp': rng.choice([None, None, 'gzip', 'zstd']), 'enc': rng.choice(['utf-8'] * 6 + ['utf-16', 'utf-32']),
+         'skip': rng.choice([0, 0, 0, 0, 1, 2, 7]), 'open_obj': rng.random() < 0.25, 'ignore': rng.random() < 0.2}
+    c['raw'] = gen_raw(rng, RAW_HI_SMALL, 0.25)
+    c['open_obj'] = c['open_obj'] or c['raw'] is not None
+    return c
 
 
 HAND = ['{"a":1}', '{}', '', '', 'null', '{bad', ' ', '{"s":"x\\ny"}', '[1,2]', '"str"', '12', '{"a":1}\r', 'true',
@@ -135,11 +178,14 @@ HAND = ['{"a":1}', '{}', '', '', 'null', '{bad', ' ', '{"s":"x\\ny"}', '[1,2]', 
 def gen_hand(rng):
     lines = [rng.choice(HAND) for _ in range(rng.choice([0, 1, 2, 3, 5, 8]))]
     text = '\n'.join(lines) + rng.choice(['\n', '\n', '', '\n\n'])
-    return {'kind': 'hand', 'text': text, 'comp': rng.choice([None, None, 'gzip', 'zstd']), 'enc': 'utf-8',
-            'skip': rng.choice([0, 0, 1, 2, 3]), 'open_obj': False, 'ignore': rng.random() < 0.4}
+    c = {'kind': 'hand', 'text': text, 'comp': rng.choice([None, None, 'gzip', 'zstd']), 'enc': 'utf-8',
+         'skip': rng.choice([0, 0, 1, 2, 3]), 'open_obj': False, 'ignore': rng.random() < 0.4}
+    c['raw'] = gen_raw(rng, RAW_HI_SMALL, 0.15)
+    c['open_obj'] = c['raw'] is not None
+    return c
 
 
-def gen_big(rng, tier, straddle=None, comp='?', size=None):
+def gen_big(rng, tier, straddle=None, comp='?', size=None, raw='?'):
     top = 5 * READ if tier != 'thorough' else rng.choice([5 * READ, 5 * READ, 1500000])
     spec = {'kind': 'big', 'seed': rng.randrange(10 ** 6),
             'size': size if size is not None else rng.choice([0, 100, READ - 50, READ, READ + 1, 2 * READ, rng.randrange(top)]),
@@ -147,10 +193,24 @@ def gen_big(rng, tier, straddle=None, comp='?', size=None):
             'comp': rng.choice([None, None, 'gzip', 'zstd']) if comp == '?' else comp,
             'enc': rng.choice(['utf-8'] * 8 + ['utf-16', 'utf-32']), 'skip': rng.choice([0, 0, 0, 1, 5]),
             'open_obj': rng.random() < 0.2, 'ignore': False}
+    spec['raw'] = gen_raw(rng, RAW_HI_BIG, 0.25)
+    if raw != '?':
+        spec['raw'] = raw
     if straddle:
-        spec.update({'straddle': straddle, 'comp': None, 'enc': 'utf-8'})
+        spec.update({'straddle': straddle, 'comp': None, 'enc': 'utf-8', 'raw': None})
         spec['size'] = max(spec['size'], straddle['j'] * READ + 100) if size is None else size
+    spec['open_obj'] = spec['open_obj'] or spec['raw'] is not None
     return spec
+
+
+def gen_redundant(rng, tier, comp, raw=None):
+    """a large, highly compressible payload (> 1 MiB of text out of one <= 64 KiB piece of the compressed file)"""
+    top = 3 * MIB if tier != 'thorough' else rng.choice([3 * MIB, 3 * MIB, 8 * MIB])
+    c = gen_big(rng, tier, comp=comp, size=rng.randrange(3 * MIB // 2, top), raw=raw)
+    c['flavour'] = 'redundant'
+    if tier != 'thorough':
+        c['enc'] = 'utf-8'
+    return c
 
 
 def straddles(js):
@@ -167,12 +227,17 @@ def straddles(js):
 def generate(rng, tier):
     cases = [
         {'kind': 'small', 'objs': [{'a': 'line\nbreak', 'b': [1, 2.5, None, True]}, {'é': '\U0001f600 "q"'}],
-         'comp': None, 'enc': 'utf-8', 'skip': 0, 'open_obj': False, 'ignore': False},
+         'comp': None, 'enc': 'utf-8', 'skip': 0, 'open_obj': False, 'ignore': False, 'raw': None},
         {'kind': 'small', 'objs': [{'n': 2 ** 63 - 1}, {}, {'f': -0.0}], 'comp': 'zstd', 'enc': 'utf-8', 'skip': 1,
-         'open_obj': True, 'ignore': False},
+         'open_obj': True, 'ignore': False, 'raw': None},
         {'kind': 'hand', 'text': '{"a":1}\n\nnull\n{"b":2}', 'comp': None, 'enc': 'utf-8', 'skip': 0, 'open_obj': False,
-         'ignore': False},
+         'ignore': False, 'raw': None},
     ]
+    # a raw stream that hands out 1..3 bytes per read call, for every compression setting
+    for comp in (None, 'gzip', 'zstd'):
+        cases.append({'kind': 'small', 'objs': [{'é': 'line\nbreak \U0001f600'}, {'q': '"', 'n': [1, -0.0, None]}, {}],
+                      'comp': comp, 'enc': 'utf-8', 'skip': 0, 'open_obj': True, 'ignore': False,
+                      'raw': {'seed': rng.randrange(10 ** 6), 'hi': 3, 'full': 0.0}})
     n_small, n_hand, n_big = {'quick': (900, 300, 80), 'thorough': (8000, 3000, 1200), 'search': (80, 30, 6)}[tier]
     cases += [gen_small(rng) for _ in range(n_small)]
     cases += [gen_hand(rng) for _ in range(n_hand)]
@@ -185,6 +250,21 @@ def generate(rng, tier):
                 c = gen_big(rng, tier, comp=comp, size=5 * READ + 17)
                 c['flavour'], c['enc'], c['skip'] = fl, 'utf-8', 0
                 cases.append(c)
+        # raw streams with short reads over files of several read chunks, every compression setting x every cap range
+        for comp in (None, 'gzip', 'zstd'):
+            for hi in RAW_HI_BIG:
+                for _ in range(1 if tier == 'quick' else 4):
+                    c = gen_big(rng, tier, comp=comp, size=rng.randrange(2 * READ, 5 * READ),
+                                raw={'seed': rng.randrange(10 ** 6), 'hi': hi, 'full': rng.choice([0.0, 0.3])})
+                    c['flavour'] = rng.choice(['ascii', 'unicode', 'mixed'])
+                    cases.append(c)
+        # large highly compressible payloads: one piece of the compressed file inflates past 1 MiB
+        for comp in (None, 'gzip', 'zstd'):
+            for _ in range(1 if tier == 'quick' else 6):
+                cases.append(gen_redundant(rng, tier, comp))
+        for comp in (('gzip',) if tier == 'quick' else (None, 'gzip', 'zstd', 'gzip', 'zstd')):
+            cases.append(gen_redundant(rng, tier, comp, raw={'seed': rng.randrange(10 ** 6),
+                                                             'hi': rng.choice([4096, 20000, READ]), 'full': 0.3}))
     return cases
 
 
@@ -246,6 +326,30 @@ def ref_decompress(comp, data):
     return data
 
 
+class ShortReader(io.RawIOBase):
+    """A legitimate raw (unbuffered) binary stream over the bytes of a file: like a pipe, a socket or a remote
+    object store, read(n) may deliver FEWER than n bytes before the end of the data - here min(n, cap, bytes left)
+    with cap >= 1 drawn per call from random.Random(spec['seed']) - and delivers b'' only at the end of the data.
+    io.RawIOBase.read(n) calls readinto once with a buffer of n bytes.  The caps are appended to `caps`."""
+
+    def __init__(self, path, spec, caps):
+        super().__init__()
+        with open(path, 'rb') as f:
+            self._data = f.read()
+        self._pos, self._rng, self._hi, self._full, self._caps = 0, random.Random(spec['seed']), spec['hi'], spec['full'], caps
+
+    def readable(self):
+        return True
+
+    def readinto(self, b):
+        cap = NOCAP if self._rng.random() < self._full else self._rng.randrange(1, self._hi + 1)
+        self._caps.append(cap)
+        data = self._data[self._pos:self._pos + min(len(b), cap)]
+        self._pos += len(data)
+        b[:len(data)] = data
+        return len(data)
+
+
 def run_impl(case):
     import rx
     import rxsci.container.json as rjson
@@ -255,8 +359,12 @@ def run_impl(case):
         os.remove(path)
     opened = []
 
+    rawspec, caps = case.get('raw'), []
+
     def my_open(f, mode, encoding=None):
         opened.append(mode)
+        if rawspec and 'r' in mode:
+            return ShortReader(f, rawspec, caps)
         return open(f, mode, encoding=encoding)
     kw = {'open_obj': my_open} if case['open_obj'] else {}
     comp, enc = case['comp'], case['enc']
@@ -304,8 +412,11 @@ def run_impl(case):
         obs['first_diff'] = next((i for i, (a, b) in enumerate(zip(got + [None], want + [None])) if a != b), None) \
             if got != want else None
         obs['n_objs'] = len(objs)
+    if rawspec:
+        obs['caps'] = caps
     if case['kind'] == 'big':
         obs['n_chunks'] = len(chunks)
+        obs['max_chunk_chars'] = max([len(c) for c in chunks] or [0])
         obs['segs'] = [[len(p) for p in c.split('\n')] for c in chunks]
         obs['lens_out'] = [[len(l) for l in o] for o in outs]
         return obs
@@ -348,7 +459,7 @@ def oracle(case, obs):
         return {'sig': 'json:dump-failed', 'what': 'dump_to_file ended with %s' % obs['dump_end'][-2:]}
     if obs['load_end'] != ['completed']:
         return {'sig': 'json:load-error', 'what': 'load_from_file ended with %s after %d of %d items'
-                % (obs['load_end'], obs['n_items'], obs['n_objs'] - case['skip'])}
+                % (obs['load_end'], obs['n_items'], max(0, obs['n_objs'] - case['skip']))}
     if not obs['items_equal']:
         return {'sig': 'json:items-differ', 'what': '%d items read back for %d objects written (skip %d); first '
                 'difference at item %s' % (obs['n_items'], obs['n_objs'], case['skip'], obs['first_diff'])}
@@ -359,14 +470,19 @@ def nontrivial(case, obs):
     if 'raised' in obs or case['kind'] == 'hand':
         return False
     if case['kind'] == 'big':
-        return len(obs['read_sizes']) >= 2
+        return len(obs['read_sizes']) >= 2 or obs['max_chunk_chars'] > MIB
     t = ''.join(obs['texts'])
     return len(case['objs']) >= 2 and (any(ord(c) > 127 for c in t) or '\\n' in t)
 
 
 def describe(cases, obs):
     d = {'small': 0, 'hand': 0, 'big': 0, 'comp': {}, 'enc': {}, 'max_file_size': 0, 'max_read_chunks': 0,
-         'straddle_cases': 0, 'file_content_not_jsonl (informational)': 0, 'custom_open_obj': 0, 'with_skip': 0, 'objects_total': 0, 'max_text_chunks': 0}
+         'straddle_cases': 0, 'file_content_not_jsonl (informational)': 0, 'custom_open_obj': 0, 'with_skip': 0,
+         'objects_total': 0, 'max_text_chunks': 0,
+         'raw_stream_cases (open_obj reader returns short reads)': {'small': 0, 'hand': 0, 'big': 0},
+         'raw_stream_by_comp': {}, 'short_reads_before_eof_total': 0, 'max_read_calls_one_file': 0,
+         'redundant_payload_cases': {}, 'max_uncompressed_text_chars': 0,
+         'max_text_chars_out_of_one_read_chunk': {}}
     for c, o in zip(cases, obs):
         d[c['kind']] += 1
         d['comp'][str(c['comp'])] = d['comp'].get(str(c['comp']), 0) + 1
@@ -381,6 +497,20 @@ def describe(cases, obs):
         d['max_read_chunks'] = max(d['max_read_chunks'], len(o['read_sizes']))
         d['objects_total'] += o.get('n_objs', 0)
         d['max_text_chunks'] = max(d['max_text_chunks'], o.get('n_chunks', len(o.get('chunks', []))))
+        comp = str(c['comp'])
+        if c.get('raw'):
+            d['raw_stream_cases (open_obj reader returns short reads)'][c['kind']] += 1
+            d['raw_stream_by_comp'][comp] = d['raw_stream_by_comp'].get(comp, 0) + 1
+            # a delivered chunk shorter than the 64 KiB asked while more data followed
+            d['short_reads_before_eof_total'] += sum(1 for n in o['read_sizes'][:-1] if n < READ)
+            d['max_read_calls_one_file'] = max(d['max_read_calls_one_file'], len(o.get('caps', [])))
+        if c['kind'] == 'big':
+            if c['flavour'] == 'redundant':
+                d['redundant_payload_cases'][comp] = d['redundant_payload_cases'].get(comp, 0) + 1
+            d['max_uncompressed_text_chars'] = max(d['max_uncompressed_text_chars'],
+                                                   sum(sum(x) + len(x) - 1 for x in o['segs']))
+            m = d['max_text_chars_out_of_one_read_chunk']
+            m[comp] = max(m.get(comp, 0), o['max_chunk_chars'])
     return d
 
 
@@ -399,8 +529,8 @@ def coq_term(case, obs):
         return 'CRaised'
     completed = obs['load_end'] == ['completed']
     if case['kind'] == 'big':
-        return 'CBig %s %s %s %s %s %s %s %s' % (
-            c_N(obs['fsize']), c_N(READ), c_nlist(obs['read_sizes']), c_list([c_nlist(s) for s in obs['segs']]),
+        return 'CBig %s %s %s %s %s %s %s %s %s' % (
+            c_N(obs['fsize']), c_N(READ), c_opt(obs['caps'] if case.get('raw') else None, c_nlist), c_nlist(obs['read_sizes']), c_list([c_nlist(s) for s in obs['segs']]),
             c_list([c_nlist(s) for s in obs['lens_out']]), c_nat(case['skip']), c_N(obs['n_items']), c_bool(completed))
     return 'CSmall %s %s %s %s %s %s %s %s %s %s' % (
         c_list([c_str(t) for t in obs['texts']]), c_nlist(obs['obj_ids']),
@@ -418,13 +548,15 @@ def coq_model_expr(case):
 
 
 def neighbours(case, rng):
-    return [gen_small(rng) for _ in range(20)]
+    return [gen_small(rng) for _ in range(20)] + ([gen_big(rng, 'search')] if case['kind'] == 'big' else [])
 
 
 CLAIM = {
     'text': 'PARTIAL. orjson, the CPython text codecs, zlib and zstandard are NOT modelled. Proved in Coq (closed under '
             'the global context): the composition theorem - for ALL object lists, ALL chunkings of the file (in '
-            'particular file.read with any read size), any skip: load_from_file(dump_to_file(objs)) delivers '
+            'particular file.read with any read size, and file.read over a raw stream returning ANY sequence of short '
+            'reads of at least one byte each: raw_read, C19_raw_read_whole / _enough / C19_load_raw_stream_dump_partial), '
+            'any skip: load_from_file(dump_to_file(objs)) delivers '
             'skipn skip objs minus top-level nulls, in order, and completes - from the rxsci logic (one text item per '
             'object with the newline appended, stage order, file append / read = re-chunking, line unframing via the '
             'C15 theorem unframe_frame, skip, the len(line) > 0 filter, the None filter) GIVEN six named premises about '
@@ -434,15 +566,24 @@ CLAIM = {
             'real libraries; they are tied by the differential TEST of this check: real files of 0..5x64 KiB (thorough '
             '1.5 MB) with 2/3/4-byte characters, escapes, quotes and the line terminator at every offset across the '
             '64 KiB boundary, embedded newlines/quotes/NUL/non-ASCII, nested values, 64-bit ints, floats, nulls, '
-            'compression None/gzip/zstd, utf-8/16/32, custom open_obj. The model is tied to the code by taps around '
+            'compression None/gzip/zstd, utf-8/16/32, custom open_obj - including an open_obj whose reader is a raw '
+            '(io.RawIOBase) stream that returns short reads of 1 byte .. 64 KiB drawn from the PRNG of the case, for every '
+            'compression setting, on small and multi-chunk files - and large highly compressible payloads (1.5-3 MiB, '
+            'thorough up to 8 MiB, of near-identical records, ratio > 30) for which one <= 64 KiB piece of the gzip / zstd '
+            'file inflates to more than 1 MiB of text. The model is tied to the code by taps around '
             'line.unframe and file.read: lines per chunk recomputed by Framing.Line in Coq on the actual text chunks '
-            '(small files) or by its length abstraction (proved equal to Framing.Line on lengths) on big files; '
+            '(small files) or by its length abstraction (proved equal to Framing.Line on lengths) on big files; the '
+            'sizes of the chunks file.read delivers recomputed by the batch cutting (buffered file) or by raw_sizes from '
+            'the caps of the successive read calls (raw stream; proved equal to the lengths of raw_read); '
             'delivered objects recomputed by the load model with orjson answers as a table.',
     'note': 'Trusted: Coq kernel+VM; hand-written model of json.py (tied by correspondence only); orjson, CPython codecs, '
             'zlib, zstandard, gzip module (not modelled; hypotheses of the theorem, tested not proved); the taps '
             '(monkey-patching in the harness process); items delivered before a stage error are not modelled; '
-            'lines=False mode is outside the property.',
+            'lines=False mode is outside the property; the raw stream of the harness returns short counts on the read '
+            'side only (file.write ignores the count returned by write(), so a raw WRITER with short writes is outside '
+            'what is tested and modelled).',
     'technique': 'Coq proof (composition of stage laws as Section hypotheses; reuse of the line-framing round-trip '
-                 'theorem and of the batch-cutting theorem for file.read) + vm_compute correspondence via taps + '
-                 'differential testing of the libraries',
+                 'theorem and of the batch-cutting theorem for file.read; induction on the read calls for raw streams) + '
+                 'vm_compute correspondence via taps + differential testing of the libraries (short-read raw streams, '
+                 'highly compressible multi-MiB payloads)',
 }
